@@ -89,6 +89,8 @@ pub struct PanicInfo {
     pub file: String,
     pub line: u32,
     pub msg: String,
+    /// symbolised backtrace (function names incl. inlined frames), used by known-finding signatures
+    pub bt: String,
 }
 
 impl PanicInfo {
@@ -130,7 +132,8 @@ pub fn install_panic_hook() {
         } else {
             "<non-string panic>".to_string()
         };
-        LAST_PANIC.with(|p| *p.borrow_mut() = Some(PanicInfo { file, line, msg }));
+        let bt = if file.contains("harness/src") { String::new() } else { std::backtrace::Backtrace::force_capture().to_string() };
+        LAST_PANIC.with(|p| *p.borrow_mut() = Some(PanicInfo { file, line, msg, bt }));
         if !QUIET.with(|q| q.get()) {
             default(info);
         }
@@ -149,6 +152,7 @@ pub fn guarded<R>(f: impl FnOnce() -> R) -> Result<R, PanicInfo> {
             file: "?".into(),
             line: 0,
             msg: "unknown panic".into(),
+            bt: String::new(),
         })),
     }
 }
@@ -177,6 +181,9 @@ pub struct KnownFinding {
     pub panic_line: Option<u32>,
     #[serde(default)]
     pub panic_msg_contains: Option<String>,
+    /// at least one of these must occur in the symbolised backtrace (narrows a shared panic site to one root cause)
+    #[serde(default)]
+    pub panic_bt_contains_any: Vec<String>,
     pub what: String,
 }
 
@@ -194,6 +201,7 @@ impl KnownFinding {
         p.file.contains(f.as_str())
             && p.msg.contains(m.as_str())
             && self.panic_line.map(|l| l == p.line).unwrap_or(true)
+            && (self.panic_bt_contains_any.is_empty() || self.panic_bt_contains_any.iter().any(|n| p.bt.contains(n.as_str())))
     }
 }
 
@@ -453,7 +461,8 @@ where
             cases: a.ncases as u32,
             failure_persistence: None,
             rng_seed: RngSeed::Fixed(derive_seed(a.seed, self.name, a.shard)),
-            max_shrink_iters: 3000,
+            max_shrink_iters: 50_000,
+            max_shrink_time: 30_000,
             max_global_rejects: 1 << 20,
             ..Config::default()
         };
@@ -570,7 +579,7 @@ where
                     part: self.name.to_string(),
                     message: format!("HARNESS generator aborted: {}", reason.message()),
                     case: Value::Null,
-                    kind: FailKind::HarnessPanic(PanicInfo { file: "harness/src".into(), line: 0, msg: reason.message().to_string() }),
+                    kind: FailKind::HarnessPanic(PanicInfo { file: "harness/src".into(), line: 0, msg: reason.message().to_string(), bt: String::new() }),
                     shard: a.shard,
                 });
             }
@@ -709,21 +718,23 @@ pub struct Property {
     pub rule: &'static str,
     pub assumptions: Vec<&'static str>,
     pub parts: Vec<Box<dyn PartDyn>>,
-    /// minimum fraction of evaluations that must carry a class label (generator health)
-    pub min_class_fraction: Vec<(&'static str, f64)>,
+    /// (part, class, minimum fraction of that part's evaluations carrying the class label): generator health
+    pub min_class_fraction: Vec<(&'static str, &'static str, f64)>,
     /// library panics are violations for this property (C07)
     pub panic_is_violation: bool,
 }
 
 pub struct RunReport {
+    pub health: Vec<String>,
     pub stats: Stats,
     pub per_part: Vec<(String, u64, usize)>,
     pub wall_s: f64,
 }
 
 /// Run every part of a property over NSHARDS threads.  Stops launching further parts after a failure.
-pub fn run_parts(parts: &[&Box<dyn PartDyn>], tier: Tier, seed: u64, mode: Mode, known: &[KnownFinding], scale: f64) -> RunReport {
+pub fn run_parts(parts: &[&Box<dyn PartDyn>], tier: Tier, seed: u64, mode: Mode, known: &[KnownFinding], scale: f64, health_req: &[(&'static str, &'static str, f64)]) -> RunReport {
     let t0 = Instant::now();
+    let mut health = Vec::new();
     let mut total = Stats::default();
     let mut per_part = Vec::new();
     for p in parts {
@@ -784,12 +795,21 @@ pub fn run_parts(parts: &[&Box<dyn PartDyn>], tier: Tier, seed: u64, mode: Mode,
         });
         per_part.push((p.name().to_string(), part_stats.evals, part_stats.nontrivial.len()));
         let failed = part_stats.failure.is_some();
+        if !failed && part_stats.evals > 0 {
+            for (pn, class, min) in health_req.iter().filter(|h| h.0 == p.name()) {
+                let n = *part_stats.classes.get(class).unwrap_or(&0);
+                let frac = n as f64 / part_stats.evals as f64;
+                if frac < *min {
+                    health.push(format!("part {} class {:?} has fraction {:.4} < required {:.4}", pn, class, frac, min));
+                }
+            }
+        }
         total.merge(part_stats);
         if failed {
             break;
         }
     }
-    RunReport { stats: total, per_part, wall_s: t0.elapsed().as_secs_f64() }
+    RunReport { health, stats: total, per_part, wall_s: t0.elapsed().as_secs_f64() }
 }
 
 pub fn write_replay(verif_root: &str, prop: &str, f: &Failure, seed: u64, tier: Tier) -> String {
